@@ -82,13 +82,28 @@ def plan(prop, tier):
                  rule="differential: for every (grammar,input,one_parse,cost,recovery) the canonical observation (code, syntax_error calls, flag, denoted tree set with costs) is compared across lookahead arguments {0,1,2,-5,3,7,INT_MAX} and across debug levels {0..6,-1}",
                  bounds={"max_input_length": 4}, require={"c09_comparisons": 10000})
     elif prop == "C13":
-        fl = ["--fresh", "--ams", "0,1,2"]
-        jobs = [gram(prop, "q", "c", "q", 4, ["--tm", "vary", "--la", "1", "--cms", "0,3"] + fl),
-                gram(prop, "qe", "c", "qe", 3, ["--la", "1"] + fl),
-                gram(prop, "cur", "c-asan", "cur", 5, ["--la", "1"] + fl, shards=NPROC)]
+        fl = ["--fresh", "--ams", "0,1,2", "--la", "1"]
+        jobs = [gram(prop, "q", "c", "q", 4, ["--tm", "vary", "--cms", "3", "--rec", "1"] + fl),
+                gram(prop, "qe", "c", "qe", 3, ["--rec", "1"] + fl),
+                gram(prop, "cur", "c-asan", "cur", 4 if q else 6, fl, shards=NPROC)]
+        if not q:
+            jobs += [gram(prop, "q3", "c", "q3", 5, ["--tm", "vary", "--cms", "3", "--rec", "1"] + fl), gram(prop, "q3e", "c", "q3e", 4, ["--rec", "1"] + fl)]
         P = dict(base, jobs=jobs, nontrivial_key="c13_cases_with_alt", states_key="c13_cases",
-                 rule="every parse of the space under a tracking parse_alloc/parse_free pair (blocks never recycled within a case): pairing, epoch, at-most-once, reachability inside live blocks, tree unchanged after yaep_free_grammar, yaep_free_tree frees all and calls termcb once per TERM",
-                 bounds={"max_input_length": 4}, require={"c13_cases": 10000})
+                 rule="every parse of the space (one/all parses x cost flag x {tracking alloc+free, tracking alloc with NULL free, default allocator}) on a fresh object under a tracking parse_alloc/parse_free pair whose blocks are never recycled within a case: pairing, same-parse, at-most-once, everything reachable inside live blocks, tree unchanged after yaep_free_grammar, yaep_free_tree frees every block once and calls termcb once per TERM; definition inputs are freed right after the defining call",
+                 bounds={"max_input_length": 4}, require={"c13_cases": 10000, "c13_cases_with_alt": 100})
+    elif prop in ("C06", "C07", "C08"):
+        fl = ["--la", "0,1,2", "--one", "0,1", "--cost", "0", "--match", "1,2,3,4,5"]
+        fl += ["--rec", "0,1"] if prop == "C06" else ["--rec", "1"]
+        jobs = [gram(prop, "qe", "c", "qe", 4, fl), gram(prop, "cur", "c", "cur", 5 if q else 6, fl, shards=NPROC),
+                gram(prop, "minie-asan", "c-asan", "minie", 4, fl + ["--fresh"])]
+        if prop != "C08":
+            jobs.append(gram(prop, "q", "c", "q", 4, ["--la", "0,1,2", "--one", "1", "--cost", "0", "--match", "1,3", "--rec", "0,1" if prop == "C06" else "1"]))
+        if not q:
+            jobs += [gram(prop, "q3e", "c", "q3e", 5, fl), gram(prop, "qe-vary", "c", "qe", 4, ["--tm", "vary", "--la", "1", "--one", "0,1", "--cost", "0", "--match", "1,3", "--rec", "1"])]
+        nt = {"C06": "c06_cases", "C07": "c07_recovered_cases", "C08": "c08_nonzero_bound"}[prop]
+        P = dict(base, jobs=jobs, nontrivial_key=nt,
+                 rule="grammars of the families with 0-3 `error' occurrences x all token strings up to length n x lookahead 0..2 x one/all parses x recovery_match 1..5 (x recovery on/off for C06); oracles from the reference model: first non-viable prefix of G'' (error as terminal, implicit rule), argument relations; tree in the translations of some repair (segments replaced by error, up to n+1 segments) whose deleted length equals the reported total, unique-segment rule; bound = cheapest simple recovery (back p, skip to q, match m) measured from the reported error token",
+                 bounds={"max_input_length": 4, "recovery_match": [1, 2, 3, 4, 5]}, require={"parses": 100000, nt: 1000})
     elif prop == "C10":
         jobs = [Job("def", "c", ["def"] + ([] if q else ["--thorough"]), NPROC), Job("def-asan", "c-asan", ["def", "--sample", "97"], NPROC)]
         P = dict(base, jobs=jobs, states_key="definitions", transitions_key="definitions", nontrivial_key="nontrivial_rejections",
